@@ -4,6 +4,7 @@ import (
 	"bytes"
 	"encoding/binary"
 	"fmt"
+	"github.com/ipfs/go-cid"
 
 	"github.com/rpcpool/yellowstone-faithful/ipld/ipldbindcode"
 )
@@ -100,4 +101,21 @@ func (w *World) InsertBoundaryFrames(r Rng, sectionLens []int) int {
 		w.byCid[a.obj.Cid.KeyString()] = a.obj
 	}
 	return len(add)
+}
+
+// LegacyFrame returns an old-style DataFrame (hash/index/total null) with the given payload and
+// successor links (duplicates allowed: the harness uses it to build malformed frame graphs),
+// as a bound struct and reference-encoded.
+func LegacyFrame(data []byte, next []cid.Cid) (ipldbindcode.DataFrame, []byte) {
+	f := ipldbindcode.DataFrame{Kind: KindDataFrame, Data: data}
+	f.Hash, f.Index, f.Total = nullInt(), nullInt(), nullInt()
+	if len(next) > 0 {
+		l := make(ipldbindcode.List__Link, 0, len(next))
+		for _, c := range next {
+			l = append(l, link(c))
+		}
+		lp := &l
+		f.Next = &lp
+	}
+	return f, encodeNode(&f, ipldbindcode.Prototypes.DataFrame.Type())
 }
